@@ -91,9 +91,9 @@ pub fn shapes_part() -> BoxedStrategy<StrCase> {
 }
 
 const B1_MS: u64 = 500;
-const B2_MS: u64 = 20000;
+const B2_MS: u64 = 10000;
 /// a prefix that terminates in less than this, while one more character does not terminate within B2,
-/// is not explained by exponential backtracking (growth > 10^4 per character; the steepest finite blow-up
+/// is not explained by exponential backtracking (growth > 5*10^3 per character; the steepest finite blow-up
 /// seen on this engine, nested nullable loops, was about 3*10^3)
 const FAST_US: u64 = 2_000;
 
@@ -147,11 +147,10 @@ fn confirm_hang(case: &StrCase, input: &str, ctx: &mut Ctx) -> Option<String> {
             job.inputs = vec![v.clone()];
             match ctx.w.run_budget(&job, B2_MS) {
                 JobResult::Done(_) => tmax = tmax.max(ctx.w.last_wall_us),
-                JobResult::Hang => {
+                JobResult::Hang | JobResult::Died(_) => {
                     hanging = Some(v.clone());
                     break;
                 }
-                JobResult::Died(_) => return None,
             }
         }
         match hanging {
@@ -187,14 +186,19 @@ pub fn check_termination(case: &StrCase, ctx: &mut Ctx) -> Verdict {
                 return fail(what);
             }
         }
-        JobResult::Died(_) => return Verdict::Skip("died"),
-        JobResult::Hang => {
+        JobResult::Hang | JobResult::Died(_) if ctx.obs.frozen => {
+            // while shrinking, exceeding the first budget is enough (the result is confirmed in full afterwards)
+            return fail(format!("calls did not return within {} ms of CPU (shrinking; unconfirmed)", B1_MS));
+        }
+        JobResult::Hang | JobResult::Died(_) => {
+            // (a worker that dies — stack overflow, or the 4 GB address-space cap hit by a loop that allocates
+            // without end — is treated like one that does not return)
             // isolate: compile alone, then each input alone with the larger budget
             let mut j0 = case.job();
             j0.inputs = vec![];
             match ctx.w.run_budget(&j0, B2_MS) {
                 JobResult::Hang => return fail(format!("compiling the pattern did not return within {} ms of CPU", B2_MS)),
-                JobResult::Died(_) => return Verdict::Skip("died"),
+                JobResult::Died(st) => return fail(format!("compiling the pattern killed the worker process ({st}): unbounded recursion or allocation")),
                 JobResult::Done(_) => {}
             }
             for input in &case.inputs {
@@ -208,8 +212,7 @@ pub fn check_termination(case: &StrCase, ctx: &mut Ctx) -> Verdict {
                             return fail(what);
                         }
                     }
-                    JobResult::Died(_) => return Verdict::Skip("died"),
-                    JobResult::Hang => match confirm_hang(case, input, ctx) {
+                    JobResult::Hang | JobResult::Died(_) => match confirm_hang(case, input, ctx) {
                         Some(what) => return fail(what),
                         None => {
                             ctx.obs.label("exponential-backtracking(not judged)");
@@ -242,10 +245,10 @@ impl Prop for C06 {
         case.describe()
     }
     fn max_shrink_iters(&self) -> u32 {
-        60
+        150
     }
     fn rule(&self) -> String {
-        "evaluation = one API call (is_match, replace_all, tokenize and analyze driven to exhaustion plus three extra next() calls) under a CPU-time watchdog; non-trivial = compiled pattern from the quantifier-heavy generators on a non-empty input; distinct = distinct (pattern, flags, input). Bounded observation: a call counts as non-terminating when it exceeds 0.5 s of CPU with all inputs, then 20 s with that input alone, and, on the minimal input still exceeding it, every single-character deletion returns in < 2 ms (so exponential but finite backtracking, which grows by a bounded factor per character, is not reported); normal cost < 1 ms, the maximum seen is reported as max_job_wall_us".into()
+        "evaluation = one API call (is_match, replace_all, tokenize and analyze driven to exhaustion plus three extra next() calls) under a CPU-time watchdog; non-trivial = compiled pattern from the quantifier-heavy generators on a non-empty input; distinct = distinct (pattern, flags, input). Bounded observation: a call counts as non-terminating when it exceeds 0.5 s of CPU with all inputs, then 10 s with that input alone, and, on the minimal input still exceeding it, every single-character deletion returns in < 2 ms (so exponential but finite backtracking, which grows by a bounded factor per character, is not reported); normal cost < 1 ms, the maximum seen is reported as max_job_wall_us".into()
     }
     fn guards(&self) -> Vec<Guard> {
         vec![Guard { label: "compile=ok".into(), of: "".into(), min_fraction: 0.5 }, Guard { label: "tokenize=ok".into(), of: "".into(), min_fraction: 0.2 }]
